@@ -1533,3 +1533,19 @@ Proof.
   unfold row_field, setter. destruct (r_op s); try discriminate; destruct (r_fields s) as [|f1 [|f2 fs]]; try discriminate;
     intros E _ He; inversion E; subst; rewrite He; destruct raw; reflexivity.
 Qed.
+
+(* DEP-3 set_upstream_bug (a plain set of Bug), read through bugs() *)
+Definition upstream_bugs (p : list (str * str)) : list str :=
+  flat_map (fun r => match r with [AS _; AN 0%N; AS u] => [u] | _ => [] end)
+           (match dep3_bugs LI p with VRecs l => l | _ => [] end).
+Lemma upstream_bugs_get_all p : upstream_bugs p = p_get_all LI p k_Bug.
+Proof.
+  unfold upstream_bugs, dep3_bugs, p_get_all. cbn [p_items LI]. induction p as [|[n x] r IH]; [reflexivity|].
+  cbn [flat_map fst snd]. rewrite flat_map_app, IH. f_equal.
+  destruct (strip_prefix k_Bug_dash n) as [v|] eqn:E.
+  - apply strip_prefix_some in E. subst n. reflexivity.
+  - destruct (str_eqb n k_Bug); reflexivity.
+Qed.
+Theorem dep3_set_upstream_bug_spec p b : count_key k_Bug p <= 1 ->
+  upstream_bugs (l_set p k_Bug b) = [b] /\ l_remove (l_set p k_Bug b) k_Bug = l_remove p k_Bug.
+Proof. intros H. rewrite upstream_bugs_get_all, get_all_l_set_single by exact H. split; [reflexivity|apply l_set_others]. Qed.
